@@ -14,7 +14,7 @@ def add_shell(chk, kind, fields, tag="", meta=None):
 def judge_shell(chk):
     """requests whose answer is OK / ERR <what differs>: ERR is a failing input"""
     for cid, case in list(chk.cases.items()):
-        if case["kind"] not in ("ARCH", "CLI", "CONV"):
+        if case["kind"] not in ("ARCH", "CLI", "CONV", "EQV"):
             continue
         impl = chk.results.get(cid, {}).get("impl")
         if impl is None:
@@ -37,7 +37,10 @@ def gen_C20(chk):
     ws = worlds(chk, n_random=(25 if thorough(chk) else 8))
     for nm, net in ws:
         props = net_props(net)
-        fs = [gen.random_formula(rng, rng.randint(1, 7), props, max_vars=2) for _ in range(10 if thorough(chk) else 5)]
+        fs = [gen.random_formula(rng, rng.randint(1, 7), props, max_vars=2, binops=gen.BINOPS) for _ in range(10 if thorough(chk) else 6)]
+        st_ = ("H", "Bind", "x", None, ("U", "AX", gen.T("V", "x")))
+        pq = gen.T("P", props[0]) if len(props) < 2 else ("B", "And", gen.T("P", props[0]), gen.T("P", props[1]))
+        fs += [("B", "AW", st_, pq), ("B", "EW", st_, pq), ("B", "EW", pq, ("U", "EX", st_))]
         fs += [("H", "Bind", "x", None, ("U", "AG", ("U", "EF", gen.T("V", "x")))),
                ("H", "Bind", "x", None, ("U", "AX", gen.T("V", "x")))]
         k = max(gen.quant_depth(f) for f in fs)
@@ -193,6 +196,12 @@ CONV_NETS = [
     "a -?? b\nb -?? a\n$a: f(b) ^ f(!b)\n",
     "a -> b\nb -> c\nc -> a\nc -| b\n",
     "a_1 -> a\na -> a_1\n",
+    "b -?? a\n$a: f(b) & f_1\n",
+    "b -?? a\n$a: (f(b) & f_1) | f_0\n",
+    "b -?? a\na -?? c\n$c: a_1 | a\n",
+    "b -?? a\na -?? c\nb -?? c\n$c: (a_1 & a) | (a_0 ^ b)\n",
+    "b -?? a\nc -?? a\n$a: g(b, c) | g_10 | g_\n",
+    "b -?? a\n$a: p & f(b) | p_ \n",
     "b -?? a\n$a: h(f(b))\n",
     "b -?? a\nc -?? a\n$a: f(b & c, !b)\n",
     "a_0 -> a\na -?? a\na -> a_0\n$a_0: a\n",
@@ -204,6 +213,17 @@ def gen_C19(chk):
     nets = list(CONV_NETS)
     for i in range(60 if thorough(chk) else 20):
         nets.append(gen.random_network(rng, max_n=3, max_bits=10))
+    # constants named like the synthetic row constants of a function of the same network
+    for i in range(40 if thorough(chk) else 12):
+        net = gen.random_network(rng, max_n=3, max_bits=8)
+        lines = net.strip().split("\n")
+        targets = [l for l in lines if l.startswith("$")]
+        if not targets:
+            continue
+        j = lines.index(rng.choice(targets))
+        cname = rng.choice(["f1_", "f2_", "g1_", "g2_", "a_", "b_", "c_"]) + "".join(rng.choice("01") for _ in range(rng.randint(0, 2)))
+        lines[j] = lines[j] + " %s %s" % (rng.choice(["&", "|", "^"]), cname)
+        nets.append("\n".join(lines) + "\n")
     for net in nets:
         add_shell(chk, "CONV", [gen.hx(net)], tag="conv", meta={"net": net})
 
